@@ -193,7 +193,8 @@ def run_property(mod, prop, tier, seed, t0, only=None):
                 checker_errors.append(f"bounded native case failed to run: {nr['error']}")
             elif nr.get("ok") is False:
                 bounded_fail.append((obj, nr))
-    if only is None and canary and not canary_replayed and hasattr(mod, "replay_case"):
+    if only is None and canary and not canary_replayed and hasattr(mod, "replay_case") and not oos_units and not refuted and not unknown:
+        # (only meaningful on a tree where everything else is decided: on a changed tree the canary's claim may replay differently)
         checker_errors.append("canary: refuted but its counterexample did not replay natively")
 
     # ---- verdicts for refuted obligations
